@@ -171,7 +171,7 @@ class Array(DaskMethodsMixin):
         meta = self._meta
         if meta is None:
             # Fallback to synthetic meta if original is also None
-            meta = np.empty((0,) * self.ndim, dtype=self.dtype)
+            meta = np.zeros((0,) * self.ndim, dtype=self.dtype)
         # Use self.chunks to preserve nan chunks for unknown-sized operations
         return from_graph, (
             meta,
